@@ -69,6 +69,7 @@ type extPkg struct {
 var extPkgs = map[string]extPkg{
 	"a":     {"corpus/x/a/config", "config"},
 	"b":     {"corpus/x/b/config", "config"},
+	"c":     {"corpus/x/c/config", "config"}, // third namesake, used by the three-files layout
 	"ext2":  {"corpus/x/ext2", "ext"}, // package name differs from the last path element
 	"s":     {"corpus/x/s", "s"},      // named like the receiver the FieldsOf accessor uses
 	"plain": {"corpus/x/plain", "plain"},
@@ -114,26 +115,27 @@ type extUse struct {
 	Inj    func(q string, i int) string // an injector function, if any
 	Local  func(q string, i int) string // declarations the use needs in providers.go (imports q there)
 	NoFile bool                         // the wire file itself does not import the package
+	Typed  bool                         // the package reaches the output through a go/types type, not through the file's expression
 }
 
 var extUses = []extUse{
 	{Label: "func", Elems: func(q string, i int) string { return q + ".NewT" }},
 	{Label: "value", Elems: func(q string, i int) string { return "wire.Value(" + q + ".Default)" }},
-	{Label: "struct", Elems: func(q string, i int) string { return "wire.Struct(new(" + q + ".S), \"*\")" }},
-	{Label: "bind", Elems: func(q string, i int) string {
+	{Label: "struct", Typed: true, Elems: func(q string, i int) string { return "wire.Struct(new(" + q + ".S), \"*\")" }},
+	{Label: "bind", Typed: true, Elems: func(q string, i int) string {
 		return q + ".NewImpl, wire.Bind(new(" + q + ".I), new(*" + q + ".Impl))"
 	}},
-	{Label: "fieldsof", Elems: func(q string, i int) string { return "wire.FieldsOf(new(*" + q + ".C), \"A\")" }},
-	{Label: "ifacevalue", Elems: func(q string, i int) string {
+	{Label: "fieldsof", Typed: true, Elems: func(q string, i int) string { return "wire.FieldsOf(new(*" + q + ".C), \"A\")" }},
+	{Label: "ifacevalue", Typed: true, Elems: func(q string, i int) string {
 		return "wire.InterfaceValue(new(" + q + ".I), " + q + ".DefaultImpl)"
 	}},
-	{Label: "result", Inj: func(q string, i int) string {
+	{Label: "result", Typed: true, Inj: func(q string, i int) string {
 		return fmt.Sprintf("func Init%d() *%s.T {\n\twire.Build(%s.NewT)\n\treturn nil\n}\n", i, q, q)
 	}},
-	{Label: "local-struct", NoFile: true,
+	{Label: "local-struct", NoFile: true, Typed: true,
 		Elems: func(q string, i int) string { return fmt.Sprintf("wire.Struct(new(L%d), \"*\")", i) },
 		Local: func(q string, i int) string { return fmt.Sprintf("type L%d struct{ F *%s.T }\n", i, q) }},
-	{Label: "struct-field-named-like-package", Elems: func(q string, i int) string { return "wire.Struct(new(" + q + ".S2), \"*\")" }},
+	{Label: "struct-field-named-like-package", Typed: true, Elems: func(q string, i int) string { return "wire.Struct(new(" + q + ".S2), \"*\")" }},
 	{Label: "local-fieldsof", NoFile: false,
 		// a FieldsOf over a LOCAL struct next to a use of the package: the accessor's receiver is called s
 		Elems: func(q string, i int) string { return fmt.Sprintf("%s.NewT, wire.FieldsOf(new(*LC%d), \"A\")", q, i) },
@@ -167,8 +169,9 @@ func extPrograms(thorough bool) []*c14Prog {
 		{"same-file", "", "q2"}, {"same-file", "q1", "q2"}, {"same-file", "", ""},
 		{"two-files", "", ""}, {"two-files", "x", "x"}, {"two-files", "q1", "q2"}, {"two-files", "", "q2"}, {"two-files", "q1", ""},
 	}
+	spellings = append(spellings, spelling{"three-files", "", ""})
 	if thorough {
-		spellings = append(spellings, spelling{"three-files", "", ""}, spelling{"three-files", "x", "x"})
+		spellings = append(spellings, spelling{"three-files", "x", "x"})
 	}
 	var out []*c14Prog
 	for _, pr := range pairs {
@@ -201,7 +204,15 @@ func extPrograms(thorough bool) []*c14Prog {
 					case p1.Name == p2.Name:
 						same = "two-packages-one-name"
 					}
-					prog.Pre = fmt.Sprintf("pkgs=%s+%s,%s,use=%s+%s,layout=%s,spelling=%s+%s", pr[0], pr[1], same, use1.Label, use2.Label, sp.layout, orStr(sp.n1, "unaliased"), orStr(sp.n2, "unaliased"))
+					// derived feature: a type-derived use of one package sits in a file whose own import table
+					// maps that package's NAME to its namesake
+					namesake := "no"
+					if same == "two-packages-one-name" && sp.layout == "same-file" {
+						if (use1.Typed && !use2.NoFile && q2 == p1.Name) || (use2.Typed && !use1.NoFile && q1 == p2.Name) {
+							namesake = "yes"
+						}
+					}
+					prog.Pre = fmt.Sprintf("pkgs=%s+%s,%s,use=%s+%s,layout=%s,spelling=%s+%s,namesake-in-type-use-file=%s", pr[0], pr[1], same, use1.Label, use2.Label, sp.layout, orStr(sp.n1, "unaliased"), orStr(sp.n2, "unaliased"), namesake)
 					imp := func(p extPkg, alias string) string {
 						if alias == "" {
 							return fmt.Sprintf("\t%q\n", p.Path)
@@ -246,7 +257,11 @@ func extPrograms(thorough bool) []*c14Prog {
 					case "three-files":
 						files["wire_a.go"] = file([]string{i1}, body(use1, q1, 1))
 						files["wire_b.go"] = file([]string{i2}, body(use2, q2, 2))
-						files["wire_c.go"] = file([]string{imp(extPkgs["plain"], "")}, body(extUses[0], "plain", 3))
+						third, q3 := extPkgs["plain"], "plain"
+						if p1.Name == "config" || p2.Name == "config" {
+							third, q3 = extPkgs["c"], name(extPkgs["c"], sp.n1)
+						}
+						files["wire_c.go"] = file([]string{imp(third, sp.n1)}, body(extUses[0], q3, 3))
 					}
 					// providers.go: local declarations (it imports the packages under its own, unaliased or
 					// numbered, names: what the wire files call them is irrelevant here)
@@ -670,7 +685,7 @@ func runC14(args []string) {
 	rc.Coverage = map[string]any{
 		"evaluations":         len(progs),
 		"distinct_nontrivial": len(distinct),
-		"rule": "L: " + rule + " X: ordered pairs of external packages {two packages named config, the same package twice, a package whose name differs from its directory, a package named s (the receiver name of generated FieldsOf accessors), a plain one} x use of the first {provider func, Value, Struct, Bind+ctor, FieldsOf, InterfaceValue, injector result type, field of a local struct, struct with a field named like the package, FieldsOf over a local struct next to it, injector parameter only} x use of the second {func, Struct} (thorough: all) x layout/spelling {same file: unaliased+alias, two aliases, both unaliased; two files: both unaliased, same alias for both, distinct aliases, one aliased} (thorough: + three files). M/I: valid local packages with 1..3 wire files and, planted at every file (providers.go included) or pattern position: syntax error (2 shapes), type error (3 shapes), different package clause, two packages in one invocation (different names / one name / one name + same set name), set redeclared in another file, wire.Bind without New<T> (in a set / in wire.Build). Every program: 3 CLI runs on success (GOMAXPROCS 1/4/16, output removed in between), 2 on failure (without / with a previous output file of known content and old mtime). distinct = distinct migrated texts modulo digits",
+		"rule": "L: " + rule + " X: ordered pairs of external packages {two packages named config, the same package twice, a package whose name differs from its directory, a package named s (the receiver name of generated FieldsOf accessors), a plain one} x use of the first {provider func, Value, Struct, Bind+ctor, FieldsOf, InterfaceValue, injector result type, field of a local struct, struct with a field named like the package, FieldsOf over a local struct next to it, injector parameter only} x use of the second {func, Struct} (thorough: all) x layout/spelling {same file: unaliased+alias, two aliases, both unaliased; two files: both unaliased, same alias for both, distinct aliases, one aliased; three files (the third uses a third package named config, or the plain one): unaliased} (thorough: + three files under one alias). M/I: valid local packages with 1..3 wire files and, planted at every file (providers.go included) or pattern position: syntax error (2 shapes), type error (3 shapes), different package clause, two packages in one invocation (different names / one name / one name + same set name), set redeclared in another file, wire.Bind without New<T> (in a set / in wire.Build). Every program: 3 CLI runs on success (GOMAXPROCS 1/4/16, output removed in between), 2 on failure (without / with a previous output file of known content and old mtime). distinct = distinct migrated texts modulo digits",
 		"samples":             samples,
 		"exhaustive":          exhaustive,
 		"programs_by_family":  fam,
